@@ -168,8 +168,14 @@ def suite_bytecounts(tier):
             k = r.choice(["wcoils", "wregs", "rwm", "ok"])
             if k == "wcoils":
                 a, q = X.pick_range(r, L, "c", 40, True)
-                bc = (q + 7) // 8 + r.choice([1, 2, 1])          # too large: still quantity <= 8*bc
-                ws.append(("wcoils", a, q, bc, X.coil_bytes(r, bc)))
+                if q > 8 and r.random() < 0.4:
+                    # too SMALL while the PDU carries every data byte the quantity calls for (quantity <= 8 * bytes
+                    # present, so outside the FC15 defect region): the byte-count field alone is wrong -> 03
+                    bc = r.randrange(1, (q + 7) // 8)
+                    ws.append(("wcoils", a, q, bc, X.coil_bytes(r, (q + 7) // 8)))
+                else:
+                    bc = (q + 7) // 8 + r.choice([1, 2, 1])          # too large: still quantity <= 8*bc
+                    ws.append(("wcoils", a, q, bc, X.coil_bytes(r, bc)))
             elif k == "wregs":
                 a, q = X.pick_range(r, L, "h", 20, True)
                 bc = 2 * q + r.choice([1, 2, 3])                  # decode reads 2*q bytes: needs len >= 2q
